@@ -366,8 +366,6 @@ def classes_of(sc):
     cl = []
     don, fmt, off = date_on(sc)
     kinds = set(sc["srcs"][e["src"]]["msgs"][e["mi"]]["kind"] for e in sc["events"])
-    if 1 in kinds and not sc["colour"] and sc["fmode"] and don:
-        cl.append("fixedstruct_nocolor_file_and_date")
     if don and "%" in sc["psep"]:
         cl.append("prepend_separator_contains_percent")
     names = prepend_names(sc)
@@ -405,8 +403,6 @@ def render(sc, quirks=()):
             dsep = psep.replace("%%", "%") if "prepend_separator_contains_percent" in quirks else psep
             df = (py_strftime(fmt, m["t"], off) + dsep).encode()
         pre = ff + df
-        if "fixedstruct_nocolor_file_and_date" in quirks and m["kind"] == 1:
-            pre = df + ff
         n = 0
         for l in m["lines"]:
             out.append(pre + l); n += len(pre) + len(l)
